@@ -19,6 +19,14 @@ CFGX = os.path.join(BUILD, 'cfgx')
 CXXFLAGS = ['-std=gnu++17', '-I' + INC, '-I' + os.path.join(VERIF, 'universe'), '-UNDEBUG', '-Wno-everything']
 
 
+_REPO_UNITS = {}
+
+
+def is_repo_unit(path):
+    """was this extraction produced from a file under REPO/src (registered by repo_units.extract_all)?"""
+    return path in _REPO_UNITS
+
+
 class AnalysisBroken(Exception):
     pass
 
@@ -149,6 +157,7 @@ class DB:
             for f in d.get('functions', []):
                 u = f['u']
                 if u not in self.fns:
+                    f['_unit'] = p
                     self.fns[u] = f
                     self.order.append(f)
             for k, v in d.get('records', {}).items():
@@ -210,6 +219,17 @@ class Result:
 
     def broke(self, msg):
         self.broken.append(msg)
+
+    def broke_at(self, path, msg):
+        """an instantiation that could not be analysed: in a universe unit (everything there is meant to be analysable) the analysis is broken; in one of the
+        repository's own translation units (thorough tier: tests and examples with their own rules, controls, inputs) it is listed as not analysed -
+        the function templates themselves are covered by the universe, whose pattern floors are enforced"""
+        if is_repo_unit(path):
+            self.cov.setdefault('not_analysed_in_repository_units', [])
+            if len(self.cov['not_analysed_in_repository_units']) < 200: self.cov['not_analysed_in_repository_units'].append(msg[:300])
+            self.cov['not_analysed_in_repository_units_count'] = self.cov.get('not_analysed_in_repository_units_count', 0) + 1
+        else:
+            self.broke(msg)
 
     # ---- finish -------------------------------------------------------------------------
     def finish(self, explanation, rule_text, trusted=None):
